@@ -599,52 +599,64 @@ func ruleC05Dead(p *Program, r *Run, handledBin, producedBin map[string]string) 
 func (p *Program) constructedKinds(typ, field string) []string {
 	pkg := p.Parser
 	info := pkg.TypesInfo
-	set := map[string]bool{}
+	c := &kindsClient{p: p, typ: "parser." + typ, field: field, set: map[string]bool{}}
 	for _, fd := range AllFuncs(pkg) {
+		has := false
 		ast.Inspect(fd.Body, func(n ast.Node) bool {
-			cl, ok := n.(*ast.CompositeLit)
-			if !ok || TypeStr(info.TypeOf(cl)) != "parser."+typ {
-				return true
+			if cl, ok := n.(*ast.CompositeLit); ok && TypeStr(info.TypeOf(cl)) == c.typ {
+				has = true
 			}
-			v := litField(info, cl, field)
-			if v == nil {
-				return true
-			}
-			if name := constName(info, v); name != "" {
-				set[name] = true
-				return true
-			}
-			// tok.Kind under `case K1, K2:` of a switch on tok.Kind
-			found := false
-			p.ancestors(cl, fd, func(anc, _ ast.Node) bool {
-				cc, ok := anc.(*ast.CaseClause)
-				if !ok || cc.List == nil {
-					return true
-				}
-				sw, ok := p.Parent(p.Parent(cc)).(*ast.SwitchStmt)
-				if !ok || sw.Tag == nil || !sameExpr(info, sw.Tag, v) {
-					return true
-				}
-				for _, e := range cc.List {
-					if name := constName(info, e); name != "" {
-						set[name] = true
-						found = true
-					}
-				}
-				return false
-			})
-			if !found {
-				set["?unguarded "+exprStr(v)+" in "+FuncName(pkg, fd)] = true
-			}
-			return true
+			return !has
 		})
+		if !has {
+			continue
+		}
+		c.fn = FuncName(pkg, fd)
+		e := NewEngine(p, pkg, fd, c)
+		e.Run(nil)
 	}
 	var out []string
-	for k := range set {
+	for k := range c.set {
 		out = append(out, k)
 	}
 	sort.Strings(out)
 	return out
+}
+
+// kindsClient collects the constants a field of a node type can be constructed with: the constant written in the
+// literal, or the value the path facts give the expression there (`Op: tok.Kind` under a guard on tok.Kind).
+type kindsClient struct {
+	BaseClient
+	p     *Program
+	typ   string
+	field string
+	fn    string
+	set   map[string]bool
+}
+
+func (c *kindsClient) Visit(e *Engine, st *State, n ast.Node) *State {
+	cl, ok := n.(*ast.CompositeLit)
+	if !ok || TypeStr(e.Info.TypeOf(cl)) != c.typ || !e.Reporting() {
+		return nil
+	}
+	v := litField(e.Info, cl, c.field)
+	if v == nil {
+		return nil
+	}
+	if name := constName(e.Info, v); name != "" {
+		c.set[name] = true
+		return nil
+	}
+	if f := e.FactOf(st, v); f != nil && f.HasEq {
+		if named, ok := e.Info.TypeOf(v).(*types.Named); ok {
+			if name := c.p.constNameByValue(c.p.Parser, named.Obj().Name(), f.Eq); name != "" {
+				c.set[name] = true
+				return nil
+			}
+		}
+	}
+	c.set["?unguarded "+exprStr(v)+" in "+c.fn] = true
+	return nil
 }
 
 var _ = token.NoPos
